@@ -36,7 +36,7 @@ func TestVerifC01History(t *testing.T) {
 			if realStores {
 				defer simAttachRealStores(s, dir)()
 			}
-			h := &simHist{s: s, opts: simHistOpts{MaxRounds: 8, ClockFaults: true, Faults: true, Existing: big, CreateRace: true, CancelRounds: true}, nextID: bigNext}
+			h := &simHist{s: s, opts: simHistOpts{MaxRounds: 8, ClockFaults: true, Faults: true, Existing: big, CreateRace: true, CancelRounds: true, StaleWriter: true}, nextID: bigNext}
 			err := h.run(t)
 			if err == nil {
 				err = h.finish()
@@ -67,6 +67,7 @@ func TestVerifC01History(t *testing.T) {
 			add(st.Crashes > 0, "crash")
 			add(s.w.stalls > 0, "operation-stalled-until-deadline")
 			add(h.st.CancelledRounds > 0, "sequencing-context-cancelled-mid-round")
+			add(st.StaleWriterRounds > 0, "stale-second-process-sequenced")
 			add(st.CreateRaces > 0, "concurrent-CreateLog")
 			add(st.CreatesOverExisting > 0, "CreateLog-over-existing-log")
 			add(st.ClockAnoms > 0, "clock-anomaly")
